@@ -198,6 +198,18 @@ pub fn render_diagnostics(ctx: &Context, e: &NumbatError) -> Result<String, (Str
 /// VM instructions one input may execute (about a second of run time)
 pub const STEP_BUDGET: u64 = 30_000_000;
 
+thread_local! {
+    /// a smaller budget for checks whose inputs are arbitrary (C08): the worst cost of one VM
+    /// instruction (unit conversions in every operation) times the budget must stay far below
+    /// the hang thresholds
+    static STEP_BUDGET_OVERRIDE: std::cell::Cell<Option<u64>> = const { std::cell::Cell::new(None) };
+}
+
+/// Sets (or clears) the step budget used by evaluations on the calling thread.
+pub fn set_thread_step_budget(budget: Option<u64>) {
+    STEP_BUDGET_OVERRIDE.with(|b| b.set(budget));
+}
+
 pub struct EvalOpts {
     pub render_diagnostics: bool,
     pub source: CodeSource,
@@ -227,7 +239,7 @@ pub fn eval_with(ctx: &mut Context, code: &str, opts: &EvalOpts) -> Outcome {
     let mut out = Outcome::default();
     let source = opts.source.clone();
     // bound run time and memory of generated programs (guarded hook in the VM loop)
-    vh::set_step_budget(STEP_BUDGET);
+    vh::set_step_budget(STEP_BUDGET_OVERRIDE.with(|b| b.get()).unwrap_or(STEP_BUDGET));
     let r = catch(|| {
         let res = ctx.interpret_with_settings(&mut settings, code, source);
         match res {
